@@ -98,6 +98,9 @@ func runC05(c *core.Ctx) {
 		o.rawFOpts = 0
 		o.macInFRM = 1
 		o.maxFRM = 120
+		if i%8 == 5 {
+			o.maxFRM = 242 // full-size frames (up to 270 bytes with FOpts): whatever has a fixed-size buffer shows only here
+		}
 		d := genDataCase(r, o)
 		if d.Spec.FPort == 0 && len(d.Spec.FRMPayload) == 0 {
 			d.FRM, d.Spec.FRMPayload = genMACStream(r, d.Spec.Uplink(), 1+r.Intn(20), false)
